@@ -339,7 +339,14 @@ def job_builder(job, pmax, int_pmax=False):
         dtag = dry + (", after a wet-gas build with the same inputs" if di == 2 else "")
         if int_pmax:
             dtag += ", maximum pressure a Python int"
-        res = paths(job, lambda: mod.build_pvt_gas(gv, dry, QI(pmax) if int_pmax else Q(pmax)), dom, max_paths=64)
+        def build(dry=dry, di=di):
+            pm = QI(pmax) if int_pmax else Q(pmax)
+            if di == 2:
+                # within one path (one process): a wet-gas table for the same inputs is built first; whatever the builder
+                # keeps between calls must not leak into the dry-gas table
+                mod.build_pvt_gas(dict(gv), "wet gas", pm)
+            return mod.build_pvt_gas(gv, dry, pm)
+        res = paths(job, build, dom, max_paths=64)
         for k, pr in enumerate(res):
             if pr.exc is not None:
                 job.errors.append(f"build_pvt_gas[{dtag}] path {k} raised {pr.exc!r}")
